@@ -71,6 +71,13 @@ def generate(ctx):
     for _ in range(ctx.scale(3000, 100000)):
         n = r.randrange(0, 10)
         ctx.add('parse_key_paths %s' % gen.hexarg(bytes(r.choice(alphabet) for _ in range(n))), kind='soup')
+    # escapes inside plain and quoted names, every truncation (the scanners index ahead of the cursor)
+    for nm in common.escape_forms(ctx, ctx.scale(150, 4000)):
+        for t in ('{' + nm + '}', '{"' + nm + '"}', '{a, ' + nm + ' , 1}', '{' + nm):
+            t = t.encode()
+            ctx.add('parse_key_paths %s' % gen.hexarg(t), kind='escape')
+            for i in range(max(0, len(t) - 9), len(t)):
+                ctx.add('parse_key_paths %s' % gen.hexarg(t[:i]), kind='escape-prefix')
     for t in [b'{"abc}', b'{"', b'{"\\', b'{"\\u12', b'{a', b'a}', b'{', b'}', b'', b'{ }', b'{,}', b'{a,}', b'{1,2', b'{""}', b'{99999999999}', b'{-}', b'{+}', b'{1a}', b'{a b}']:
         ctx.add('parse_key_paths %s' % gen.hexarg(t), kind='edge', meta=('edge', t))
 
